@@ -502,3 +502,13 @@ func (im *Image) Resize(file string, delta int) {
 	copy(d, nd.data)
 	im.files[file] = &inode{data: d}
 }
+
+// Drop removes a file of the image; Move renames one (directory-level fault families).
+func (im *Image) Drop(file string) { delete(im.files, file) }
+
+func (im *Image) Move(from, to string) {
+	if nd, ok := im.files[from]; ok {
+		delete(im.files, from)
+		im.files[to] = nd
+	}
+}
